@@ -257,7 +257,7 @@ def crash_summary(stderr):
     return (kind or text.strip()[:200] or 'died without a report') + (' @ ' + ' | '.join(frames) if frames else '')
 
 
-def run_driver(exe, commands, timeout=120, env_extra=None):
+def run_driver(exe, commands, timeout=600, env_extra=None):
     """Feed command lines; returns list (one per command) of result dict or {'crash': summary, 'stderr': text}."""
     results = []
     todo = list(commands)
@@ -281,7 +281,23 @@ def run_driver(exe, commands, timeout=120, env_extra=None):
         if done >= len(todo):
             break
         # the process died (or hung) while handling todo[done]
-        why = 'timeout after %ds' % timeout if timed_out else crash_summary(err)
+        if timed_out:
+            # a batch that ran out of time is inconclusive (loaded machine); only a vector that also hangs when
+            # run alone, with a generous limit, counts
+            try:
+                p1 = subprocess.run([exe], input=(todo[done] + '\n').encode(), stdout=subprocess.PIPE,
+                                    stderr=subprocess.PIPE, timeout=180, env=env)
+                alone = [l for l in p1.stdout.decode(errors='replace').splitlines() if l.startswith('R ')]
+                if alone:
+                    results.append(parse_result(alone[0]))
+                else:
+                    results.append({'crash': crash_summary(p1.stderr), 'stderr': p1.stderr.decode(errors='replace')[-4000:],
+                                    'rc': p1.returncode})
+            except subprocess.TimeoutExpired:
+                results.append({'crash': 'no answer within 180 s (run alone)', 'stderr': '', 'rc': -9})
+            todo = todo[done + 1:]
+            continue
+        why = crash_summary(err)
         results.append({'crash': why, 'stderr': err.decode(errors='replace')[-4000:], 'rc': rc})
         todo = todo[done + 1:]
     return results
@@ -313,7 +329,7 @@ class FullTU(object):
         self.exe = os.path.join(self.dir, 'drv')
         compile_cxx(['driver.cpp', 'm.ppf.cpp'], self.exe, self.dir, sanitize=sanitize, extra=extra_flags)
 
-    def run(self, commands, timeout=120):
+    def run(self, commands, timeout=600):
         return run_driver(self.exe, commands, timeout)
 
     def cleanup(self):
@@ -449,7 +465,7 @@ class RawTU(object):
                 got[int(i)] = int(v)
         return [(label, want, got.get(i)) for i, (label, expr, want) in enumerate(self.facts)]
 
-    def swap(self, items, timeout=120):
+    def swap(self, items, timeout=600):
         """items: list of (tname, big-endian bytes) -> result dicts {'end': int, 'buf': bytes} or {'crash':..}"""
         cmds = ['swap %s %s' % (t, hexarg(d)) for t, d in items]
         res = run_driver(self.exe, cmds, timeout)
